@@ -556,7 +556,9 @@ func (rr *rulesRunner) renderMessage(msg string, m matchData, truncate bool) str
 			capture = append(capture, c)
 		}
 		if len(capture) > 1 {
-			sort.Slice(capture, func(i, j int) bool {
+			// Stable: a regexp may name two groups alike, $name is the
+			// first of them everywhere (filters, At), so here as well.
+			sort.SliceStable(capture, func(i, j int) bool {
 				return len(capture[i].Name) > len(capture[j].Name)
 			})
 		}
